@@ -41,7 +41,7 @@ m = {
     ],
     "checks": checks,
     "not_applicable": na,
-    "notes": "see DESIGN.md; known_findings.json lists recorded genuine defects; seeded/ holds confirmed property-breaking changes used to test the checks",
+    "notes": "see DESIGN.md (section 10 = as built); known_findings.json lists recorded genuine defects (status finding) and repaired ones (status fixed, fix: commits in /repo); seeded/ holds 57 confirmed property-breaking changes used to test the checks; hooks: every call site in repository code is an added `if base.VerifOn {...}` line, the facility itself lives in verif-tagged files (base/verif_on.go was extended by a later hook commit); bin/run_all.sh <tier> <seed> sweeps all checks; checks/Pipeline.py is a growth module run as a stage of C07 and C08 (thorough) and stand-alone as `bin/vcheck Pipeline`",
 }
 json.dump(m, open(os.path.join(V, "MANIFEST.json"), "w"), indent=1)
 print("MANIFEST.json: %d checks, %d not_applicable" % (len(checks), len(na)))
